@@ -81,6 +81,12 @@ def matrix():
             for order in (2, 4, 6):
                 for gen in ('min', 'max'):
                     yield dict(kind='too_few_steps', cls='Derivative', method=method, n=n, order=order, gen=gen, dim=1)
+                    # ... and with more than one element / variable (the number of steps is not the number of step values)
+                    if n == 1:
+                        for cls in ('Derivative', 'Gradient', 'Jacobian'):
+                            yield dict(kind='too_few_steps', cls=cls, method=method, n=n, order=order, gen=gen, dim=3)
+                    if n == 2:
+                        yield dict(kind='too_few_steps', cls='Hessdiag', method=method, n=n, order=order, gen=gen, dim=3)
     # 5. directionaldiff
     for nx, nv in ((2, 3), (3, 2), (1, 2), (4, 1), (6, 5)):
         for method in ('central', 'complex', 'forward'):
@@ -254,11 +260,20 @@ def run_case(case, ctx):
             ctx.count('skipped_rule_of_length_one')
             return
         G = nd.MinStepGenerator if case['gen'] == 'min' else nd.MaxStepGenerator
+        cls, dim = case.get('cls', 'Derivative'), case.get('dim', 1)
         for k in range(1, need):
             gen = G(base_step=0.1, step_ratio=2.0, num_steps=k, check_num_steps=False)
-            ok = expect_value_error(ctx, case, lambda: nd.Derivative(np.exp, step=gen, method=method, n=n,
-                                                                     order=order)(1.0),
-                                    steps=k, rule_length=need)
+            if dim == 1:
+                thunk = lambda: nd.Derivative(np.exp, step=gen, method=method, n=n, order=order)(1.0)
+            elif cls == 'Derivative':
+                thunk = lambda: nd.Derivative(np.exp, step=gen, method=method, n=n, order=order)(np.array([0.5, 1.0, 1.5]))
+            elif cls == 'Jacobian':
+                thunk = lambda: nd.Jacobian(lambda t: np.array([np.exp(t[0]) * t[1], t[2] * t[2]]), step=gen, method=method,
+                                            order=order)(np.array([0.5, 1.0, 1.5]))
+            else:
+                thunk = lambda: getattr(nd, cls)(lambda t: np.exp(t[0]) * t[1] + t[2] * t[2] * t[0], step=gen, method=method,
+                                                 order=order)(np.array([0.5, 1.0, 1.5]))
+            ok = expect_value_error(ctx, case, thunk, steps=k, rule_length=need, cls=cls, dim=dim)
             if not ok:
                 return
     elif kind == 'directionaldiff_size':
